@@ -10,7 +10,8 @@ RULE = ("bench texts generated from a dialect model: INPUT/OUTPUT lines, gates w
         "around = ( , ) and before `(`), comment lines; every valuation of inputs and flop outputs compared net by net; "
         "round trip writer->reader for every 2-input <=2-gate circuit (sampled) and random blackbox-free circuits "
         "with >=1 input, with and without constants; non-trivial = text has >=2 gate/DFF lines"
-        "; plus: operand lists with 2-5 repeats in both spellings of every parity / and / nor keyword")
+        "; plus: operand lists with 2-5 repeats in both spellings of every parity / and / nor keyword"
+        "; repeated operands whose names are substrings of other operands, of the keyword or of the driven net")
 BOUND = "<= 4 inputs, <= 7 gate lines, <= 3 DFFs (<= 8 free signals); 4/16 hash seeds"
 KW = ["BUF", "BUFF", "NOT", "AND", "NAND", "OR", "NOR", "XOR", "XNOR"]
 
@@ -93,6 +94,13 @@ def cases(tier, seed):
         for kw in (kw0, kw0.lower()):   # repeated operands in both spellings of the keyword (mixed case is not in the dialect)
             for ops in (["a", "a"], ["a", "b", "a"], ["a", "a", "a"], ["a", "a", "b", "b"], ["b", "a", "b", "a", "b"]):
                 yield {"k": "read", "b": {"inputs": ["a", "b"], "outputs": ["y"], "gates": [["y", kw, ops]], "dffs": []}, "style": "plain", "salt": 0, "tag": "rep"}
+    # repeated operands next to operands whose names contain them (n1 / n11 / xn1) or the keyword / the driven net (or1, y, y1)
+    for kw0 in ("XOR", "XNOR", "OR", "NAND"):
+        for kw in (kw0, kw0.lower()):
+            for nm in (["n1", "n11"], ["n1", "xn1"], ["a", "a_b"], ["y1", "y11"], ["i", "i_i"]):
+                for ops in ([0, 1, 0], [1, 0, 1], [0, 0, 1], [1, 1, 0], [0, 1, 1, 0], [0, 1, 0, 1, 0]):
+                    yield {"k": "read", "b": {"inputs": nm, "outputs": ["y"], "gates": [["y", kw, [nm[j] for j in ops]]], "dffs": []},
+                           "style": "plain", "salt": 0, "tag": "rep"}
     # DFF chains in both textual orders
     for order in ([["q1", "i0"], ["q2", "q1"]], [["q2", "q1"], ["q1", "i0"]]):
         yield {"k": "read", "b": {"inputs": ["i0"], "outputs": ["y"], "gates": [["y", "AND", ["q2", "i0"]]], "dffs": order}, "style": "plain", "salt": 0,
